@@ -674,7 +674,12 @@ func c19Ext4TimeSign(w *World, r *Report, rule string) {
 	// encoder: in the closure(s) that call time.Time.Unix, the value masked with 3 (the epoch bits)
 	encSigned, found := false, false
 	at := enc.Pos()
-	for _, f := range withClosures(enc) {
+	// the timestamp encoder may be a closure of toBytes or a package function it calls
+	cands := withClosures(enc)
+	for _, c := range calls(enc, true, func(c ssa.CallInstruction) bool { t := c.Common().StaticCallee(); return t != nil && w.fnSet[t] && t.Blocks != nil && w.pkgOf(t) == "filesystem/ext4" }) {
+		cands = append(cands, withClosures(c.Common().StaticCallee())...)
+	}
+	for _, f := range cands {
 		if len(calls(f, false, func(c ssa.CallInstruction) bool { return isStdCall(c, "(time.Time).Unix") })) == 0 {
 			continue
 		}
